@@ -66,7 +66,7 @@ class DelayManager(MpfController):
 
         self.delays[name] = (self.machine.clock.schedule_once(
             partial(self._process_delay_callback, name, callback, **kwargs),
-            ms / 1000.0), callback)
+            ms / 1000.0), partial(callback, **kwargs))
 
         return name
 
@@ -172,7 +172,8 @@ class DelayManager(MpfController):
             try:
                 # have to save the callback ref first, since if the callback
                 # schedules a new delay with the same name, then the removal
-                # will remove it
+                # will remove it. The stored callback is a partial which
+                # carries the kwargs passed to add().
                 cb = self.delays[name][1]
                 self.remove(name)
                 cb()
